@@ -21,4 +21,8 @@
 #define T0F_TOP(c, k)   (T0F_DS(c)[t0n_dpi - 1 - (k)])
 /* symbolic start depth leaving room for `room` more slots */
 #define T0F_DEPTH(room) do { t0n_dpi = ND_U32(); ASSUME(t0n_dpi <= T0N_NDP - (room)); t0n_rpi = ND_U32(); ASSUME(t0n_rpi <= T0N_NRP); } while (0)
+/* concrete start depth: with a symbolic depth every operand read back from the stack is an array read at a
+   symbolic index, so context offsets become symbolic pointers into the 3-4 kB context (measured: 10x cost);
+   independence of the depth is C05's business (per-access range CHECKs, E4) */
+#define T0F_DEPTH_AT(k) do { t0n_dpi = (k); t0n_rpi = 4; } while (0)
 #endif
